@@ -109,6 +109,42 @@ def dynamic(rep, scratch, tier, seed, budget_note=""):
     return found
 
 
+def server_stress(rep, scratch, tier, seed):
+    """Concurrent RPCs against the real server built with -race (default cache on)."""
+    import concurrent.futures
+    from . import wirecommon as wc, c13
+    rng = random.Random(seed + 77)
+    ds = wc.dataset()
+    idx = wc.make_index(scratch, ds, "c04srv")
+    srv = wc.Server(scratch, idx, cache=True, race=True)
+    nclients = 4 if tier == "quick" else 12
+    bad = 0
+    try:
+        batches = [c13.gen(random.Random(seed * 100 + k), "quick", ds)[:(60 if tier == "quick" else 150)] for k in range(nclients)]
+
+        def client(k):
+            impl, model, rc, err, lines = wc.run_wire(scratch, ds, batches[k], srv.addr, idx, "c04srv%d" % k)
+            wrong = [(rid, impl.get(rid), model.get(rid)) for rid, _ in batches[k] if impl.get(rid) != model.get(rid)]
+            return wrong
+        with concurrent.futures.ThreadPoolExecutor(max_workers=nclients) as ex:
+            results = list(ex.map(client, range(nclients)))
+        alive = srv.alive()
+    finally:
+        srv.stop()
+    out = srv.output()
+    races = out.count("WARNING: DATA RACE")
+    wrong = [w for r in results for w in r]
+    if races or not alive or wrong:
+        bad = 1
+        m = re.search(r"WARNING: DATA RACE.*?(?=\n==================|\Z)", out, re.S)
+        rep.violation("race" if races else "concurrent-rpc",
+                      "updog server (built with -race, cache on) under %d concurrent clients: %d data race report(s), alive=%s, %d wrong responses%s" % (
+                          nclients, races, alive, len(wrong), (" e.g. %s: %s vs model %s" % (wrong[0][0], str(wrong[0][1])[:100], str(wrong[0][2])[:100])) if wrong else ""),
+                      {"first_race_report": (m.group(0) if m else "")[:3000], "server_output_tail": out[-800:], "seed": seed})
+    rep.coverage["server_concurrent_rpcs"] = {"clients": nclients, "requests": sum(len(b) for b in batches), "race_reports": races, "wrong": len(wrong)}
+    return bad
+
+
 def run(rep, scratch, tier, seed, replay=None):
     ob = locks.check_obligations(scratch, PID)
     rep.coverage["lock_obligations"] = {"file": "coq/obligations/ObC04.v", "ok": ob["ok"], "theorems": ob["theorems"],
@@ -131,5 +167,6 @@ def run(rep, scratch, tier, seed, replay=None):
                            "facts": "regenerate with tools/lockskel <repo> LockFacts.v"}, no_input=True)
         return
     dynamic(rep, scratch, tier, seed)
+    server_stress(rep, scratch, tier, seed)
     rep.assumptions += ["data races inside roaring / bbolt / metric sinks on concurrently read objects are outside the skeletons (race detector only)",
                         "the lock policy (coq/theories/LockPolicy.v) is hand-written; the translator is syntactic"]
